@@ -1121,6 +1121,60 @@ def _k_nul(family, case, disc):
 
 # --------------------------------------------------------------------- families
 
+# -------------------------------------------------------------- index_reading family
+
+
+class _IndexSorted:
+    """a vectorised check without a strategy that reads the index of what it is given"""
+
+    __name__ = "index_sorted"
+
+    def __call__(self, obj):
+        return bool(obj.index.is_monotonic_increasing)
+
+
+@st.composite
+def st_index_reading(draw):
+    return {"size": draw(st.sampled_from([2, 2, 3])), "level": draw(st.sampled_from(["column", "frame", "both"])),
+            "index": draw(st.sampled_from(["single", "single", "single", "multi"])), "seed": draw(st.integers(0, 2**31 - 1)),
+            "unique_index": draw(st.booleans())}
+
+
+def eval_index_reading(case):
+    """A schema with an index component and a custom check (no strategy: enforced by filtering) whose verdict depends on
+    the index of the generated object: what the filter saw must be what is returned."""
+    import pandera as pa
+    import pandera.errors as pe
+
+    ev = Eval()
+    chk = pa.Check(_IndexSorted(), name="c13_index_sorted")
+    col_checks = [chk] if case["level"] in ("column", "both") else []
+    frame_checks = [chk] if case["level"] in ("frame", "both") else []
+    if case["index"] == "single":
+        index = pa.Index(int, unique=case["unique_index"], name="i")
+    else:
+        index = pa.MultiIndex([pa.Index(int, name="i"), pa.Index(int, name="j")])
+    S = pa.DataFrameSchema({"a": pa.Column(int, checks=col_checks)}, checks=frame_checks, index=index)
+    ev.labels += ["level=" + case["level"], "index=" + case["index"], "size=%d" % case["size"]]
+    res = run_draws(lambda: S.strategy(size=case["size"]), K_DRAWS, case["seed"], limit=ATTEMPT_LIMIT * 4)
+    ev.labels.append("draws=" + res["status"] + (":0" if not res["draws"] else ""))
+    for d in res["draws"]:
+        try:
+            S.validate(d)
+        except (pe.SchemaErrors, pe.SchemaError) as e:
+            ev.add("draw-rejected:index-reading-check", {"index": [str(x) for x in d.index.tolist()], "msg": str(e)[:200]})
+            break
+        except Exception as e:  # noqa: BLE001
+            ev.add("draw-validate-internal:" + type(e).__name__, {"where": _where(e), "msg": str(e)[:200]})
+            break
+    if res["status"] == "crash":
+        e = res["error"]
+        if not (isinstance(e, AssertionError) and _raised_inside_hypothesis(e)):
+            ev.add("strategy-crash:" + type(e).__name__, {"phase": res["phase"], "where": _where(e), "msg": str(e)[:300]})
+    ev.nontrivial = bool(res["draws"])
+    return ev
+
+
 FAMILIES = [
     Family("field", evaluate, strategy=st_field_case, n_quick=260, n_thorough=1500, shards_quick=6,
            shards_thorough=16, required_labels=["kind=series", "kind=column", "kind=index", "chain=2", "chain=3",
@@ -1132,4 +1186,6 @@ FAMILIES = [
                                                 "index=single", "joint-unique", "frame-checks",
                                                 "frame+column-checks", "model=sat"]),
     Family("fresh", eval_fresh, enumerate=enum_fresh, shards_quick=3, shards_thorough=8),
+    Family("index_reading", eval_index_reading, strategy=st_index_reading, n_quick=40, n_thorough=300, shards_quick=2,
+           shards_thorough=6, required_labels=["index=single", "level=column", "level=frame", "draws=ok"]),
 ]
